@@ -1767,7 +1767,7 @@ pub fn inject_runtime_fault(rng: &mut Rng, file: &mut GFile) -> Option<String> {
         return None;
     }
     let si = rng.below(nst);
-    let kind = rng.below(7);
+    let kind = rng.below(10);
     let mut stanzas = file.stanzas_mut();
     let st = &mut stanzas[si];
     let pos = rng.below(st.stmts.len() + 1);
@@ -1810,9 +1810,26 @@ pub fn inject_runtime_fault(rng: &mut Rng, file: &mut GFile) -> Option<String> {
             vec![stmt(StmtKind::Let(GVar::u("fault_v"), GExpr::call("eq", vec![GExpr::Int(1), GExpr::str("1")])))],
             "eq_different_types",
         ),
-        _ => (
+        6 => (
             vec![stmt(StmtKind::Let(GVar::u("fault_v"), GExpr::call("format", vec![GExpr::str("{} {}"), GExpr::Int(1)])))],
             "format_missing_argument",
+        ),
+        // scoped variables live on syntax nodes only
+        7 => (
+            vec![
+                stmt(StmtKind::Node(GVar::u("fault_n"))),
+                stmt(StmtKind::Node(GVar::u("fault_m"))),
+                stmt(StmtKind::AttrNode(GExpr::var("fault_m"), vec![GAttr { name: "fault".into(), value: Some(GExpr::scoped(GExpr::var("fault_n"), "fault_tag")) }])),
+            ],
+            "scoped_read_on_graph_node",
+        ),
+        8 => (
+            vec![stmt(StmtKind::Node(GVar::u("fault_n"))), stmt(StmtKind::Let(GVar::s(GExpr::var("fault_n"), "fault_tag"), GExpr::Int(1)))],
+            "scoped_definition_on_graph_node",
+        ),
+        _ => (
+            vec![stmt(StmtKind::Let(GVar::u("fault_s"), GExpr::str("text"))), stmt(StmtKind::Var(GVar::s(GExpr::var("fault_s"), "fault_tag"), GExpr::Int(1)))],
+            "scoped_definition_on_string",
         ),
     };
     for (k, x) in s.into_iter().enumerate() {
